@@ -387,25 +387,36 @@ def opSem (f : Nat → Bool) : Op → Nat → Bool
   | .add a l => fun x => f x || (decide (a ≤ x) && decide (x < a + l))
   | .remove a l => fun x => f x && !(decide (a ≤ x) && decide (x < a + l))
   | .inter o => fun x => f x && mem o x
+  | .union o => fun x => f x || mem o x
+  | .diff o => fun x => f x && !mem o x
 
 /-- argument validity as asserted by the code (`length > 0`); `other` of `&` is a `Spans` object -/
 def Op.valid : Op → Prop
   | .add _ l => 0 < l
   | .remove _ l => 0 < l
   | .inter o => WF o
+  | .union o => WF o
+  | .diff o => WF o
 
 theorem applyOp_chain {s : List Span} (op : Op) (hv : op.valid) (h : Chain 0 s) : Chain 0 (applyOp s op) := by
   cases op with
   | add a l => exact (add_chain (a := a) hv h).mono (Nat.zero_le _)
   | remove a l => exact remove_chain h
   | inter o => exact inter_chain o h
+  | union o => exact (mem_addAll s o 0 h (chain_pos ((wf_iff_chain o).1 hv))).1
+  | diff o => exact removeAll_chain o h
 
-theorem applyOp_mem {s : List Span} (op : Op) (h : Chain 0 s) : mem (applyOp s op) = opSem (mem s) op := by
+theorem applyOp_mem {s : List Span} (op : Op) (hv : op.valid) (h : Chain 0 s) :
+    mem (applyOp s op) = opSem (mem s) op := by
   funext x
   cases op with
   | add a l => exact add_mem x h
   | remove a l => exact mem_remove s a l x
   | inter o => exact inter_mem o x h
+  | union o =>
+    have ho : ∀ sp ∈ o, 0 < sp.2 := chain_pos ((wf_iff_chain o).1 hv)
+    exact (mem_addAll s o x h ho).2
+  | diff o => exact mem_removeAll s o x
 
 theorem run_spec {s : List Span} (ops : List Op) (hv : ∀ op ∈ ops, op.valid) (h : Chain 0 s) :
     Chain 0 (run s ops) ∧ mem (run s ops) = ops.foldl opSem (mem s) := by
@@ -415,7 +426,7 @@ theorem run_spec {s : List Span} (ops : List Op) (hv : ∀ op ∈ ops, op.valid)
     have hop := hv op (by simp)
     have := ih (fun q hq => hv q (by simp [hq])) (applyOp_chain op hop h)
     simp only [run, List.foldl_cons] at this ⊢
-    rw [← applyOp_mem op h]
+    rw [← applyOp_mem op hop h]
     exact this
 
 end Tahoe.Spans
